@@ -1480,6 +1480,20 @@ func runC11(c *Cfg) {
 			}
 		}
 	}
+	// the context's deadline passes while every worker sits inside an exec call that goes on for a long while (the
+	// controller dwells at the saturated points) and a few items are still queued: the run ends only when what was
+	// started has settled, and every item that never ran carries an error
+	for _, cc := range []int{1, 2, 3, 4} {
+		for _, stop := range []bool{false, true} {
+			for _, n := range []int{2*cc + 1, 3 * cc} {
+				it := make([]ItemScript, n)
+				for j := range it {
+					it[j].K = 1
+				}
+				cx = append(cx, &BatchCase{Family: "deadline-while-all-workers-are-busy", N: n, C: cc, Stop: stop, SetMode: true, Budget: 1, Items: it, Shape: "results", Build: "builder", ExecStyle: []string{"result", "any"}[n%2], Gated: true, Policy: "first", DwellMs: 300, Cancel: &CancelSpec{Kind: "real-deadline", DeadlineMs: 60}})
+			}
+		}
+	}
 	gatedLoop(c, len(cx), func(i int) *BatchCase { return cx[i] }, func(i int, cs *BatchCase, o *BatchObs) {
 		r.Count("runs."+cs.Family, 1)
 		r.Nontrivial(fmt.Sprintf("%s %d %d %v %+v %s", cs.Family, cs.N, cs.C, cs.Stop, *cs.Cancel, completionOrder(o)))
